@@ -157,6 +157,20 @@ def roundtrip_case(rng, tmp):
     js = scen.gen_scenario(rng, n_gc=1, n_veh=rng.randint(1, 3), steps=rng.choice([8, 12, 24]), interval=rng.choice([15, 60]), features=feats)
     for b in js["components"].get("batteries", {}).values():
         b["soc"] = 0.9
+    if strategy == "balanced_market" and rng.random() < 0.6:
+        # directed: a charged stationary battery supports a fixed load while the price is high (cheap later)
+        gid = list(js["components"]["grid_connectors"])[0]
+        start = datetime.datetime.fromisoformat(js["scenario"]["start_time"])
+        n = js["scenario"]["n_intervals"]
+        iv = js["scenario"]["interval"]
+        js["components"]["batteries"] = {"BAT1": {"parent": gid, "capacity": 80, "charging_curve": [[0, 20], [1, 20]], "soc": 0.9}}
+        js["events"]["fixed_load"] = {"building": {"start_time": scen.iso(start), "step_duration_s": iv * 60, "grid_connector_id": gid,
+                                                   "values": [round(rng.uniform(8, 15), 2) for _ in range(n)]}}
+        js["events"]["local_generation"] = {}
+        js["components"]["photovoltaics"] = {}
+        js["components"]["grid_connectors"][gid]["cost"] = {"type": "fixed", "value": 0.5}
+        js["events"]["grid_operator_signals"] = [{"signal_time": scen.iso(start), "start_time": scen.iso(start + datetime.timedelta(minutes=iv * (n // 2))),
+                                                  "grid_connector_id": gid, "cost": {"type": "fixed", "value": 0.05}}]
     js.pop("_features", None)
     return {"js": js, "strategy": strategy}
 
